@@ -61,12 +61,48 @@ func hdrOf(f frag, ihlBytes int) int {
 	return ihlBytes
 }
 
-func mk4(f frag, ihlBytes int) *layers.IPv4 {
+// captureBuffer lays the fragments of the arrivals out in one shared array, the way packets decoded
+// with NoCopy lie in a capture buffer: in sending order, each payload followed by 24 other bytes
+// (the next packet's headers) and by spare capacity up to the end of the array.
+type captureBuffer struct {
+	mem, pristine []byte
+}
+
+const capGap = 24
+
+func capPos(f frag) int { return f.id*4096 + f.a*unit + capGap*(f.a+1) }
+
+func newCaptureBuffer(arrivals []frag) *captureBuffer {
+	cb := &captureBuffer{mem: make([]byte, 2*4096)}
+	for i := range cb.mem {
+		cb.mem[i] = 0xAA
+	}
+	for _, f := range arrivals {
+		if f.id > 1 || capPos(f)+(f.b-f.a)*unit > (f.id+1)*4096 {
+			return nil
+		}
+		for i := 0; i < (f.b-f.a)*unit; i++ {
+			cb.mem[capPos(f)+i] = pbyte(f.id, f.a*unit+i)
+		}
+	}
+	cb.pristine = append([]byte(nil), cb.mem...)
+	return cb
+}
+
+func (cb *captureBuffer) payload(f frag) []byte {
+	return cb.mem[capPos(f) : capPos(f)+(f.b-f.a)*unit] // capacity reaches to the end of the buffer
+}
+
+func mk4(f frag, ihlBytes int) *layers.IPv4 { return mk4p(f, ihlBytes, nil) }
+
+func mk4p(f frag, ihlBytes int, pl []byte) *layers.IPv4 {
 	ihlBytes = hdrOf(f, ihlBytes)
 	n := (f.b - f.a) * unit
-	pl := make([]byte, n)
-	for i := range pl {
-		pl[i] = pbyte(f.id, f.a*unit+i)
+	if pl == nil {
+		pl = make([]byte, n)
+		for i := range pl {
+			pl[i] = pbyte(f.id, f.a*unit+i)
+		}
 	}
 	ip := &layers.IPv4{Version: 4, IHL: uint8(ihlBytes / 4), TOS: 3, Length: uint16(ihlBytes + n), Id: 100, FragOffset: uint16(f.a), TTL: 61, Protocol: layers.IPProtocolUDP,
 		SrcIP: net.IP{10, 0, 0, 1}, DstIP: net.IP{10, 0, 0, 2}, Options: opts[ihlBytes]}
@@ -154,9 +190,21 @@ func (c *ctx) benign(arrivals []frag, ihl int, nIDs int, totals []int) {
 	for i := range seenUnits {
 		seenUnits[i] = map[int]bool{}
 	}
-	ex := func() any { return map[string]any{"family": "benign", "header_bytes": ihl, "arrivals": fmt.Sprint(arrivals)} }
+	ex := func() any {
+		return map[string]any{"family": "benign", "header_bytes": ihl, "arrivals": fmt.Sprint(arrivals)}
+	}
+	// the fragments' payloads are windows onto one shared capture buffer (nil for layouts it cannot hold)
+	cb := newCaptureBuffer(arrivals)
 	for step, f := range arrivals {
-		out, err := d.DefragIPv4WithTimestamp(mk4(f, ihl), t0.Add(time.Duration(step)*time.Second))
+		var pl []byte
+		if cb != nil {
+			pl = cb.payload(f)
+		}
+		out, err := d.DefragIPv4WithTimestamp(mk4p(f, ihl, pl), t0.Add(time.Duration(step)*time.Second))
+		if cb != nil && !bytes.Equal(cb.mem, cb.pristine) {
+			c.fail("benign|capture-buffer-of-the-fragments-overwritten|hdr"+fmt.Sprint(ihl), fmt.Sprintf("step %d (%v): the defragmenter wrote into the buffer the fragments were decoded from (NoCopy), where fragments not yet handed over lie; arrivals %v", step, f, arrivals), int64(len(arrivals)), ex())
+			return
+		}
 		fed = append(fed, f)
 		for u := f.a; u < f.b; u++ {
 			seenUnits[f.id][u] = true
@@ -399,7 +447,7 @@ func (c *ctx) limits() {
 	d := ip4defrag.NewIPv4Defragmenter()
 	ex := map[string]any{"family": "limits"}
 	// unfragmented and DF packets pass through unchanged (same pointer)
-	for _, fl := range []layers.IPv4Flag{0, layers.IPv4DontFragment, layers.IPv4DontFragment | layers.IPv4MoreFragments} {
+	for _, fl := range []layers.IPv4Flag{0, layers.IPv4DontFragment, layers.IPv4DontFragment | layers.IPv4MoreFragments, layers.IPv4EvilBit, layers.IPv4EvilBit | layers.IPv4DontFragment} {
 		ip := mk4(frag{0, 0, 2, false}, 20)
 		ip.Flags = fl
 		snap := *ip
